@@ -305,6 +305,10 @@ def apply_set(entries, S, val, notes=None):
             # extend the family in attrpath form; intermediate explicit sets inside the family are a mix
             for e in fam:
                 p = e["path"]
+                if len(p) > len(rest) and p[: len(rest)] == rest:
+                    # the path names an inner node that exists only through dotted bindings (`a.y2.d = …;`): the same
+                    # kind of overwrite as that of an attrpath root
+                    raise Refuse("ValueError", "attrpath-root-overwrite")
                 if len(p) < len(rest) and rest[: len(p)] == p:
                     if is_set(e):
                         raise Refuse("ValueError", "mixed-explicit-inside-attrpath")
